@@ -4,6 +4,7 @@ from __future__ import annotations
 import ast
 
 from ..model import walk_own, dotted, is_self_attr, strip_doc, AnalysisError
+from ..cfg import CFG
 from .. import grules as G, nf, terms
 
 EXPLANATION = (
@@ -106,8 +107,15 @@ def check(ctx):
             fld = G.getter_field(g)
             cached = _cached_store(s)
             param = s.params()[0]
+            gcfg = CFG(s.node)
             for setattr_, field, expr, lp in sw:
                 nb += 1
+                ln = gcfg.node_of(lp.iter)
+                extra = [ast.unparse(t) for t, lab in (gcfg.guards_of(ln) if ln is not None else [])
+                         if not (ast.unparse(t) in (f"{param} != self.{fld}", f"self.{fld} != {param}") and lab == "T")]
+                ctx.ob("C14.c", f"{cname}.{pname}.setter propagates whenever the value changes", not extra,
+                       "" if not extra else f"the propagation to the registered tensors is additionally conditioned on {extra}: for some new values the component "
+                       f"reports the new {pname} while its records keep the old configuration", s.where, lp)
                 ctx.ob("C14.c", f"{cname}.{pname}.setter propagates over the registration set", setattr_ == regset,
                        f"loops over self.{setattr_}; {reg} registers into self.{regset}", s.where, lp)
                 if field not in rwrites:
@@ -161,6 +169,10 @@ def check(ctx):
     g = conn.props["synapse"]["get"]
     ok = G.getter_field(g) in regname
     ctx.ob("C14.a", "Connection.synapse getter returns the registered submodule", ok, f"registered {regname}", g.where)
+
+    # RecordTensor temporal setters recompute the size on every path (the inclusive setter re-enters duration unchanged)
+    from . import c13
+    c13.recompute_on_every_path(ctx, "C14.c")
 
     # ---- (d) privates and derived state
     nset = 0
